@@ -11,9 +11,119 @@ from .slots import BINCOUNTS, BINNING
 FN = 'blacklisted_binning'
 
 
+def tiling_model(ctx):
+    """blacklisted_binning (with trim_rangelist, merge_overlapping_ranges, fill_range as they are) run by the abstract interpreter on every small tiling problem: regions
+    [0,9) / [2,10) / [0,1), bin sizes 1 / 2 / 3 / 5 / 20, no / one / two blacklisted intervals (overlapping each other, the region ends or lying outside), fragment size
+    none / 1 / 3.  Checked is the property itself: every bin is non-empty and no larger than the requested size, bins and blacklisted bases cover the region exactly once,
+    every fetch window contains its bin, extends by at most the fragment size and stays inside the region and off the blacklist.  (ok, cases, witness) / None.  Cached."""
+    if hasattr(ctx, '_tiling_model'):
+        return ctx._tiling_model
+    import itertools
+    from ..consteval import run_function, Raised, Unfoldable, module_scope, LocalFn
+    ctx._tiling_model = None
+    try:
+        env = module_scope(ctx.ix, BINCOUNTS)
+        f = env.get('blacklisted_binning')
+        if not isinstance(f, LocalFn):
+            return None
+    except Exception:
+        return None
+    ivs = [(a, b) for a in range(-1, 11) for b in range(a + 1, min(a + 4, 13))]
+    bls = [()] + [(x,) for x in ivs[::2]] + [(x, y) for x in ivs[::4] for y in ivs[1::5]]
+    # chains and nests of three and four intervals (merged in more than one pass), sorted by start like the callers hand them over
+    bls += [tuple(sorted(c_)) for c_ in (((1, 3), (2, 5), (4, 7)), ((0, 8), (1, 2), (3, 4)), ((1, 2), (2, 4), (4, 6), (6, 8)), ((0, 2), (1, 3), (5, 6), (5, 8)), ((3, 4), (3, 4), (3, 6)),
+                                         ((1, 4), (2, 3), (3, 6), (7, 9)), ((2, 6), (3, 4), (4, 5), (8, 12)))]
+    n = 0
+    try:
+        for s_, e_ in ((0, 9), (2, 10), (0, 1)):
+            for bs in (1, 2, 3, 5, 20):
+                for bl in bls:
+                    for F in (None, 1, 3):
+                        n += 1
+                        case = {'region': (s_, e_), 'bin size': bs, 'blacklist [start, end)': list(bl), 'fragment size': F}
+                        try:
+                            got = [tuple(t_) for t_ in run_function(f.fdef, [s_, e_, bs], {'blacklist': [tuple(x) for x in bl], 'fragment_size': F}, env=f.scope, budget=100000)]
+                        except Raised as r_:
+                            ctx._tiling_model = (False, n, dict(case, problem=f'raises {r_.name}'))
+                            return ctx._tiling_model
+                        B = set()
+                        for a, b in bl:
+                            B |= set(range(max(a, s_), min(b, e_)))
+                        cover, problem = [], None
+                        for t_ in got:
+                            a, b = t_[0], t_[1]
+                            if not a < b:
+                                problem = f'empty / inverted bin {t_}'
+                            elif b - a > bs:
+                                problem = f'bin {t_[:2]} is larger than the requested size'
+                            cover += list(range(a, b))
+                            if F is not None and problem is None:
+                                if len(t_) != 4:
+                                    problem = f'no fetch window for bin {t_}'
+                                else:
+                                    fs, fe = t_[2], t_[3]
+                                    if not (fs <= a and fe >= b):
+                                        problem = f'fetch window {(fs, fe)} does not contain its bin {(a, b)}'
+                                    elif a - fs > F or fe - b > F:
+                                        problem = f'fetch window {(fs, fe)} extends bin {(a, b)} by more than the fragment size'
+                                    elif fs < s_ or fe > e_:
+                                        problem = f'fetch window {(fs, fe)} leaves the region'
+                                    elif set(range(fs, fe)) & B:
+                                        problem = f'fetch window {(fs, fe)} reaches into a blacklisted interval'
+                        if problem is None and sorted(cover + sorted(B)) != list(range(s_, e_)):
+                            missing = sorted(set(range(s_, e_)) - set(cover) - B)
+                            twice = sorted({x for x in cover if cover.count(x) > 1 or x in B})
+                            outside = sorted(x for x in cover if not s_ <= x < e_)
+                            problem = f'bins + blacklist do not cover the region exactly once: uncovered {missing}, covered twice / blacklisted {twice}, outside the region {outside}'
+                        if problem is not None:
+                            ctx._tiling_model = (False, n, dict(case, bins=got, problem=problem))
+                            return ctx._tiling_model
+    except (Unfoldable,):
+        return None
+    except Exception:
+        return None
+    ctx._tiling_model = (True, n, None)
+    return ctx._tiling_model
+
+
+def _tiling_model_or_structural(ctx, rid, structural):
+    """the structural reading of the tiling code decides; where it cannot follow a restructured function the small-scope evaluation of the tiling property itself decides"""
+    from ..core import Ctx, VIOLATED, UNDECIDED
+    from ..index import AnalysisError
+    sub = Ctx(ctx.ix, 'C17', ctx.tier)
+    err = None
+    try:
+        structural(sub)
+    except AnalysisError as e_:
+        err = e_
+    except Exception as e_:
+        err = AnalysisError(f'structural reading failed ({type(e_).__name__}: {e_})')
+    for k_, v_ in sub.counters.items():
+        ctx.counters[k_] = (ctx.counters.get(k_, set()) | v_) if isinstance(v_, set) else ctx.counters.get(k_, 0) + v_
+    for k_, v_ in getattr(sub, 'exhaustive', {}).items():
+        ctx.exhaustive[k_] = v_
+    open_ = [o for o in sub.obligations if o.status in (VIOLATED, UNDECIDED)]
+    if err is None and not open_:
+        ctx.obligations.extend(sub.obligations)
+        return
+    m = tiling_model(ctx)
+    if m is None or not m[0]:
+        ctx.obligations.extend(sub.obligations)           # the model's own finding is reported by C17-R9
+        if err is not None:
+            raise err
+        return
+    ctx.obligations.extend([o for o in sub.obligations if o not in open_])
+    ctx.emit(rid, True, BINCOUNTS, ctx.fn(BINCOUNTS, 'blacklisted_binning'), f'decided by the tiling model ({m[1]} tiling problems satisfy the property); the structural reading did not follow {len(open_)} construct(s) '
+             'of the restructured functions', key='by-tiling-model')
+
+
 @rule('C17', 'C17-R1', 'the blacklist is trimmed with the exact half-open overlap test and both ends are clamped to the region; '
                        'overlapping blacklist ranges are merged to (min start, max end)')
 def r1(ctx):
+    _tiling_model_or_structural(ctx, 'C17-R1', _r1_structural)
+
+
+def _r1_structural(ctx):
     f = ctx.fn(BINCOUNTS, 'trim_rangelist')
     loops = [l for l in f.body if isinstance(l, ast.For)]
     if len(loops) != 1 or not isinstance(loops[0].target, ast.Tuple):
@@ -430,6 +540,10 @@ def window_analysis(ctx):
 @rule('C17', 'C17-R2', 'each fetch window is clamped to its gap on both sides for every bin: it contains the bin, extends by at most the '
                        'fragment size and never leaves the gap between blacklisted intervals / the region')
 def r2(ctx):
+    _tiling_model_or_structural(ctx, 'C17-R2', _r2_structural)
+
+
+def _r2_structural(ctx):
     w = window_analysis(ctx)
     y, problems, witness = w['y'], w['c17'], w['witness']
     f, outer, inner, mod = w['f'], w['outer'], w['inner'], w['mod']
@@ -476,6 +590,10 @@ def _subst(e, env):
 @rule('C17', 'C17-R3', 'no positional test against the length of a different enumeration decides the clamping (same-enumeration rule); the '
                        'equalised bin size is computed from the same gap the bins are generated for')
 def r3(ctx):
+    _tiling_model_or_structural(ctx, 'C17-R3', _r3_structural)
+
+
+def _r3_structural(ctx):
     f, outer, inner = _binning_loops(ctx)
     fi = inner.target.elts[0].id if isinstance(inner.target, ast.Tuple) and isinstance(inner.target.elts[0], ast.Name) else None
     cmps = [c for c in walk_no_nested(inner) if isinstance(c, ast.Compare) and fi and fi in names_in(c)]
@@ -535,6 +653,10 @@ def r3(ctx):
 
 @rule('C17', 'C17-R4', 'fill_range emits full steps while they fit and a final partial step up to the end')
 def r4(ctx):
+    _tiling_model_or_structural(ctx, 'C17-R4', _r4_structural)
+
+
+def _r4_structural(ctx):
     f = ctx.fn(BINCOUNTS, 'fill_range')
     a_start, a_end, a_step = [a.arg for a in f.args.args]
     loops = [l for l in f.body if isinstance(l, ast.For)]
@@ -721,6 +843,10 @@ def bin_source(ctx, rid):
 
 @rule('C17', 'C17-R6', 'the bins of a gap reach the gap end: they are the steps of fill_range (full steps plus the remainder step)')
 def r6(ctx):
+    _tiling_model_or_structural(ctx, 'C17-R6', _r6_structural)
+
+
+def _r6_structural(ctx):
     bin_source(ctx, 'C17-R6')
 
 
@@ -794,6 +920,20 @@ def r8(ctx):
     ctx.emit('C17-R8', bad is None, BINCOUNTS, f, f'get_bins_from_bed_dict on {n} record lists: every record ends up under its contig, in file order' if bad is None else
              f'get_bins_from_bed_dict loses blacklisted intervals: {bad} - the tiler then emits bins over blacklisted bases', key='blacklist-loader-complete', witness=bad,
              what='get_bins_from_bed_dict: blacklist intervals of a contig that re-appears later in the BED file are dropped')
+
+
+@rule('C17', 'C17-R9', 'the tiling property itself on every small tiling problem, evaluated by the abstract interpreter on the code as it is: bins non-empty and no larger than requested, bins and '
+                       'blacklisted bases cover the region exactly once, fetch windows contain their bin, extend by at most the fragment size, stay inside the region and off the blacklist')
+def r9(ctx):
+    f = ctx.fn(BINCOUNTS, 'blacklisted_binning')
+    m = tiling_model(ctx)
+    if m is None:
+        ctx.emit('C17-R9', True, BINCOUNTS, f, 'blacklisted_binning uses constructs outside the interpreted subset: decided by the structural rules only', key='tiling-model', nontrivial=False)
+        return
+    ok, n, wit = m
+    ctx.counters['interpreted_cases'] += n
+    ctx.emit('C17-R9', ok, BINCOUNTS, f, f'{n} tiling problems (region x bin size x blacklist x fragment size): the tiling is an exact partition with contained fetch windows' if ok else f'tiling problem {wit}',
+             key='tiling-model', witness=wit, what='blacklisted_binning: ' + (str(wit.get('problem')) if wit else ''))
 
 
 META = {
